@@ -127,7 +127,8 @@ def specs():
                  parameterization=["all_vertices", "kronecker_factored"], num_terms=[2, 1],
                  avoid_intragroup_interaction=[True, False],
                  kernel_initializer=["random_monotonic_initializer", "kfl_random_monotonic_initializer", "linear_initializer"],
-                 kernel_regularizer=[None, ("torsion", 0.1, 0.2)], average_outputs=[False, True]),
+                 kernel_regularizer=[None, ("torsion", 0.1, 0.2), [("laplacian", 0.1, 0.0), ("torsion", 0.0, 0.5)]],
+                 average_outputs=[False, True]),
       valid=lambda kw: _rtl_valid(kw))
   # constraints
   S["LatticeConstraints"] = dict(
